@@ -302,7 +302,10 @@ func (ev *nEval) add(pos token.Pos, l, r *nVal, sub bool) *nVal {
 	case l.isConst() && l.c.Sign() == 0, r.isConst() && r.c.Sign() == 0:
 		// adding zero
 	case l.intValued() && r.intValued():
-		// integers below 2^53
+		// integers below 2^53 (|x| < 2^52: the coefficient of k must stay within ±2)
+		if new(big.Rat).Abs(out.a).Cmp(rat(2, 1)) > 0 {
+			out.inexact = "a sum of integers that can exceed 2^53"
+		}
 	case l.scale != 0 || l.scaled || r.scaled:
 		out.inexact = "a sum of scaled terms"
 	default:
@@ -391,7 +394,7 @@ func (ev *nEval) mul(pos token.Pos, l, r *nVal, div bool) *nVal {
 			if !(ov.c.IsInt() && cv.c.IsInt()) {
 				out.inexact = "a product of constants can round"
 			}
-		case ov.intValued() && cv.c.IsInt():
+		case ov.intValued() && cv.c.IsInt() && new(big.Rat).Abs(cv.c).Cmp(rat(2, 1)) <= 0: // stays below 2^53 for |x| < 2^52
 		default:
 			out.inexact = "a multiplication by " + cv.c.RatString() + " can round"
 		}
